@@ -643,20 +643,25 @@ def replay(path):
         print('execution order', got)
         bad = got != sorted(got)
     else:
-        # re-execute the whole case on the real code and report whether the same finding comes back
+        # re-execute the whole case on the real code and report whether the same finding comes back (side conditions are collected by the report)
         from symx.report import Report
 
         rep = Report(PID, 'other', 'quick', 0)
-        task = tuple(t) if t else None
-        key = full.get('key') or d.get('key')
-        try:
-            for tk in ([task] if task and task[0] in ('dict', 'orders', 'reject', 'frozen', 'levels', 'transfer_entries') else [('reject',), ('frozen',), ('levels',), ('transfer_entries',)]):
+        key = full.get('key')
+        nm = d.get('name') or ''
+        head = nm.split('/')[0]
+        first = {'frozen': ('frozen',), 'readonly': ('frozen',), 'levels': ('levels',), 'transfer': ('transfer_entries',), 'reject': ('reject',), 'dict': ('dict',)}.get(head)
+        if head == 'orders' and len(nm.split('/')) > 1 and nm.split('/')[1].isdigit():
+            first = ('orders', int(nm.split('/')[1]))
+        todo = [tuple(t)] if t else ([first] if first else [('reject',), ('frozen',), ('levels',), ('transfer_entries',)])
+        for tk in todo:
+            try:
                 run_task(rep, tk)
-        except Exception as e:
-            print('re-execution raised', type(e).__name__, e)
-        same = [v for v in rep.violations if key is None or v.get('key') == key]
-        for v in same[:3]:
-            print('violation:', str(v.get('what'))[:300])
+            except Exception as e:
+                print('re-execution of', tk, 'raised', type(e).__name__, e)
+        found = [v['key'] for v in rep.violations] + [f"{PID}/side/{x['name']}" for x in rep.extra.get('side_failed', [])]
+        same = [k for k in found if key is None or k == key]
+        print('findings of the re-execution with this key:', same[:3], '(all findings:', len(found), ')')
         bad = bool(same)
     print('REPRODUCED' if bad else 'not reproduced')
     return 1 if bad else 0
